@@ -16,6 +16,7 @@ package base
 
 import (
 	"sync"
+	"sync/atomic"
 
 	"github.com/pkg/errors"
 
@@ -35,6 +36,9 @@ type SentinelEntry struct {
 	sc *SlotChain
 
 	exitCtl sync.Once
+	// exited is set (atomically) once the entry has exited: from then on its context
+	// has been recycled and may belong to another entry, so it must not be written.
+	exited int32
 }
 
 func NewSentinelEntry(ctx *EntryContext, rw *ResourceWrapper, sc *SlotChain) *SentinelEntry {
@@ -51,15 +55,19 @@ func (e *SentinelEntry) WhenExit(exitHandler ExitHandler) {
 }
 
 func (e *SentinelEntry) SetError(err error) {
-	if e.ctx != nil {
+	if e.ctx != nil && !e.isExited() {
 		e.ctx.SetError(err)
 	}
 }
 
 func (e *SentinelEntry) SetPair(key, val interface{}) {
-	if e.ctx != nil {
+	if e.ctx != nil && !e.isExited() {
 		e.ctx.SetPair(key, val)
 	}
+}
+
+func (e *SentinelEntry) isExited() bool {
+	return atomic.LoadInt32(&e.exited) == 1
 }
 
 func (e *SentinelEntry) Context() *EntryContext {
@@ -92,18 +100,22 @@ func (e *SentinelEntry) Exit(exitOps ...ExitOption) {
 	if ctx == nil {
 		return
 	}
-	if options.err != nil {
-		ctx.SetError(options.err)
-	}
 	e.exitCtl.Do(func() {
 		defer func() {
 			if err := recover(); err != nil {
 				logging.Error(errors.Errorf("%+v", err), "Sentinel internal panic in SentinelEntry.Exit()")
 			}
+			// The context is about to be recycled: later calls on this entry must not touch it.
+			atomic.StoreInt32(&e.exited, 1)
 			if e.sc != nil {
 				e.sc.RefurbishContext(ctx)
 			}
 		}()
+		// Only the first Exit carries an error into the context (the context of an
+		// exited entry may already belong to another entry).
+		if options.err != nil {
+			ctx.SetError(options.err)
+		}
 		for _, handler := range e.exitHandlers {
 			if err := handler(e, ctx); err != nil {
 				logging.Error(err, "Fail to execute exitHandler in SentinelEntry.Exit()", "resource", e.Resource().Name())
